@@ -228,7 +228,7 @@ def is_scalar_ty(ty):
 # ---------------------------------------------------------------------------------------
 
 class Frame:
-    __slots__ = ('fn', 'body', 'locals', 'bb', 'genv', 'dest', 'ret_target', 'entered_loops', 'is_promoted', 'depth', 'loop_summaries', 'concrete_loops')
+    __slots__ = ('fn', 'body', 'locals', 'bb', 'genv', 'dest', 'ret_target', 'entered_loops', 'is_promoted', 'depth', 'loop_summaries', 'concrete_loops', 'resume')
 
     def __init__(self, fn, body, genv, depth):
         self.fn = fn
@@ -243,6 +243,16 @@ class Frame:
         self.depth = depth
         self.loop_summaries = {}   # loop head -> [(place json, term, ty)] applied when the loop is left
         self.concrete_loops = {}   # loop head -> iterations executed so far (loops over short constant-length sequences are unrolled)
+        self.resume = 0            # statement index to continue at after a case split inside the current block
+
+
+class SplitRequest(Exception):
+    """raised while a statement is evaluated: the analysis continues separately under each of `conds` (exhaustive), starting
+    again at that statement (a table indexed by a truth value or by a value with a handful of possibilities)"""
+
+    def __init__(self, conds):
+        Exception.__init__(self, 'case split')
+        self.conds = conds
 
 
 class Obligation:
@@ -290,6 +300,7 @@ class State:
             nf.is_promoted = f.is_promoted
             nf.loop_summaries = dict(f.loop_summaries)
             nf.concrete_loops = dict(f.concrete_loops)
+            nf.resume = f.resume
             s.frames.append(nf)
         s.ctx = self.ctx.copy()
         s.obligations = list(self.obligations)
@@ -495,6 +506,10 @@ class Interp:
                     lt = adt.get('canon_leaf_ty', {}).get(cn)
                     if lt is not None:
                         sv.set(cn, self.sym_value(st, self.subst_ty(lt, tenv), '%s.%s' % (name, cn), tenv, depth + 1))
+                if not getattr(self, 'no_frozen', False) and adt.get('crate') == 'synth_utils':
+                    # fields the constructor sets and nothing writes afterwards carry the constructor's term (sa/frozen.py)
+                    from . import frozen
+                    frozen.link(self, st, sv, path, tenv, name)
                 inv = self.invariant_for(path)
                 if inv is not None:
                     inv(st, sv)
@@ -658,7 +673,7 @@ class Interp:
                     elif isinstance(arr, ArrV) and arr.table:
                         tb = self.facts.tables.get(arr.table) or []
                         i = len(tb) - off if pe.get('from_end') else off
-                        v = Num(t_tbl(arr.table, Poly.const(i), st.ctx), 'f32')
+                        v = self.table_elem(st, arr.table, Poly.const(i))
                     elif isinstance(arr, ContV) and (arr.len is not None or not pe.get('from_end')):
                         idx = (arr.len - off) if pe.get('from_end') else Poly.const(off)
                         v = _elem_value(self, st, arr, idx)
@@ -684,14 +699,18 @@ class Interp:
                 base = {'l': place['l'], 'p': ps[:n]}
                 arr = self.read_place(st, frame, base)
                 idx = self.read_place(st, frame, {'l': pe['l'], 'p': []})
+                if isinstance(arr, ArrV) and isinstance(idx, Num):
+                    idx = self.small_index(st, frame, arr, idx)
                 if isinstance(arr, ArrV) and arr.table:
-                    v = Num(t_tbl(arr.table, idx.term, st.ctx), 'f32')
+                    v = self.table_elem(st, arr.table, idx.term)
                 elif isinstance(arr, ArrV) and arr.items is not None:
                     c = idx.term.const_value()
                     if c is not None and 0 <= c < len(arr.items):
                         v = arr.items[int(c)]
                     else:
-                        v = Opaque('?', 'arr-elem')
+                        v = self.sparse_lookup(st, arr, idx)
+                        if v is None:
+                            v = Opaque('?', 'arr-elem')
                 elif isinstance(arr, ContV):
                     from .models import _elem_value
                     v = _elem_value(self, st, arr, idx.term)
@@ -705,6 +724,89 @@ class Interp:
         if v is None:
             raise InterpError('read of uninitialised place %r in %s' % (place, frame.fn['path']))
         return v
+
+    def small_index(self, st, frame, arr, idx):
+        """index into a short array / table by a truth value (`T[(x < 0.5) as usize]`) or by a value with at most 8
+        possibilities: decided by case split, each case then reads one definite element"""
+        n = len(arr.items) if arr.items is not None else len(self.facts.tables.get(arr.table) or [])
+        if idx.term.const_value() is not None or not 0 < n <= 64:
+            return idx
+        a = idx.term.as_single_atom()
+        ctx = st.ctx
+        if a is not None and a[0] == 'ite' and isinstance(a[1], B):
+            d = ctx.decide(a[1])
+            if d is not None:
+                return Num(as_poly(a[2] if d else a[3]), idx.ty)
+            if getattr(self, '_split_ok', False) and not getattr(self, '_nosplit', 0):
+                raise SplitRequest([a[1], bnot(a[1])])
+            return idx
+        lo, hi = ctx.rng(idx.term)
+        if lo == hi and lo.denominator == 1:
+            return Num(Poly.const(lo), idx.ty)
+        if lo != -INF and hi != INF and 0 <= lo and hi - lo < 8 and getattr(self, '_split_ok', False) and not getattr(self, '_nosplit', 0) \
+                and (a is not None and (a in ctx.int_atoms or a[0] in ('mod', 'bitand', 'idiv', 'shr', 'min', 'max'))):
+            ks = list(range(int(lo) if lo.denominator == 1 else int(lo) + 1, int(hi) + 1))
+            return_conds = [cmp_term('Eq', idx.term, Poly.const(k)) for k in ks]
+            probe = ctx.copy()
+            if all(probe.copy().assume(c) is not False for c in return_conds):
+                raise SplitRequest(return_conds)
+        return idx
+
+    def table_elem(self, st, name, idx):
+        """element `idx` of the named constant table, with the table's own element type.  An integer table that merely spells out
+        a closed form (`[1 << 0, 1 << 1, ...]`, `[0, 12, 24, ...]`) is read as that closed form, so that the rules see the same
+        term as for the computed expression"""
+        ck = self.facts.consts.get(name) or {}
+        ety = ((ck.get('ty') or {}).get('ty') or {})
+        n = ety.get('n') if ety.get('k') in ('int', 'uint', 'float') else 'f32'
+        tb = self.facts.tables.get(name)
+        c = idx.const_value()
+        if ety.get('k') in ('int', 'uint') and tb and len(tb) >= 2:
+            if c is not None and c.denominator == 1 and 0 <= c < len(tb):
+                return Num(Poly.const(tb[int(c)]), n)
+            lo, hi = st.ctx.rng(idx)
+            if lo >= 0 and hi <= len(tb) - 1:
+                d = tb[1] - tb[0]
+                if all(tb[i] == tb[0] + d * i for i in range(len(tb))):
+                    return Num(Poly.const(tb[0]) + idx.scale(d), n)
+                if tb[0] != 0 and all(tb[i] == tb[0] * 2 ** i for i in range(len(tb))):
+                    return Num(t_shl(Poly.const(tb[0]), idx, st.ctx), n)
+        return Num(t_tbl(name, idx, st.ctx), n)
+
+    def sparse_lookup(self, st, arr, idx):
+        """`ACTIONS[byte]`: a constant array in which all but a few entries hold the same value, indexed by an unknown: one case
+        per special entry that the path has not excluded, one for 'none of them' (which reads the common value)"""
+        items = arr.items
+        ctx = st.ctx
+        lo, hi = ctx.rng(idx.term)
+        if lo == -INF or hi == INF or lo < 0 or hi >= len(items) or len(items) > 4096:
+            return None
+        keys = [self._hashable(x) for x in items]
+        if any(k is None for k in keys):
+            return None
+        cnt = {}
+        for k in keys[int(lo):int(hi) + 1]:
+            cnt[k] = cnt.get(k, 0) + 1
+        common = max(cnt, key=lambda k: cnt[k])
+        special = [i for i in range(int(lo) if lo.denominator == 1 else int(lo) + 1, int(hi) + 1) if keys[i] != common]
+        if len(special) > 24:
+            return None
+        open_ = []
+        for i in special:
+            d = ctx.decide(cmp_term('Eq', idx.term, Poly.const(i)))
+            if d is True:
+                return items[i]
+            if d is None:
+                open_.append(i)
+        if not open_:
+            return items[keys.index(common)]
+        if getattr(self, '_split_ok', False) and not getattr(self, '_nosplit', 0):
+            conds = [cmp_term('Eq', idx.term, Poly.const(i)) for i in open_]
+            rest = TRUE
+            for i in open_:
+                rest = band(rest, cmp_term('Ne', idx.term, Poly.const(i)))
+            raise SplitRequest(conds + [rest])
+        return None
 
     def write_place(self, st, frame, place, v):
         cont, key = self.resolve(st, frame, place, for_write=True)
@@ -863,6 +965,13 @@ class Interp:
         if val is None:
             return Opaque(ty, 'const')
         if 'table' in val:
+            if name not in self.facts.tables:
+                # a named array constant that is not a numeric lookup table (states, actions, pairs): its elements as values
+                ck = self.facts.consts.get(name)
+                cv = ck.get('val') if ck is not None else None
+                if isinstance(cv, dict) and 'array' in cv and len(cv['array']) <= 4096:
+                    ety = ty.get('ty', {'k': 'other'})
+                    return ArrV(items=[self.json_const(st, v, ety) for v in cv['array']])
             return ArrV(table=name)
         if 'int' in val:
             return Num(Poly.const(int(val['int'])), ty.get('n', 'u32'))
@@ -902,6 +1011,17 @@ class Interp:
                                                  ({'bool': bool(bits)} if nz[0]['ty']['k'] == 'bool' else {'bits': str(bits)})), nz[0]['ty'])
                         return StructV(ty['path'], [nz[0]['name']], [inner])
             return Opaque(ty, 'bits=%d' % bits)
+        if isinstance(val.get('static'), str):
+            # address of an immutable `static` without interior mutability: a reference to its initialiser
+            ck = self.facts.consts.get(val['static'])
+            cv = ck.get('val') if ck is not None and not ck.get('mutable') else None
+            if cv is None:
+                return Opaque(ty, 'static')
+            if ck['path'] in self.facts.tables:
+                inner = ArrV(table=ck['path'])
+            else:
+                inner = self.json_const(st, cv, ck.get('ty') or ty.get('ty', {'k': 'other'}), ck['path'])
+            return RefV(st.new_cell(inner))
         if 'ref_to' in val:
             inner_ty = ty.get('ty', {'k': 'other'})
             cell = st.new_cell(self.json_const(st, val['ref_to'], inner_ty))
@@ -1006,8 +1126,33 @@ class Interp:
             return self.opaque_result(st, ty if base not in ('Eq', 'Ne', 'Lt', 'Le', 'Gt', 'Ge') else {'k': 'bool'}, 'binop')
         x, y = a.term, b.term
         is_float = ty['k'] == 'float'
+        if base in ('Eq', 'Ne'):
+            ax, ay = x.as_single_atom(), y.as_single_atom()
+            if ax is not None and ay is not None and ax[0] == 'app' and ay[0] == 'app' and ax[1] == ay[1] == 'float_bits':
+                # equal bit patterns => equal values; equal values do not give equal bits (signed zeros): the converse is
+                # left open through a fresh unknown
+                e = band(cmp_term('Eq', ax[2][0], ay[2][0]), B(('sym', st.fresh_name('same_bits'))))
+                return BoolV(e if base == 'Eq' else bnot(e))
+            for aa, other in ((ax, y), (ay, x)):
+                cv = other.const_value()
+                if aa is not None and aa[0] == 'app' and aa[1] == 'float_bits' and cv is not None and cv.denominator == 1 and 0 <= cv < 2 ** 32 and ty.get('n') == 'u32':
+                    import struct
+                    import math as _m
+                    fv = struct.unpack('<f', struct.pack('<I', int(cv)))[0]
+                    if _m.isfinite(fv):
+                        e = band(cmp_term('Eq', aa[2][0], Poly.const(Fr(fv))), B(('sym', st.fresh_name('same_bits'))))
+                        return BoolV(e if base == 'Eq' else bnot(e))
         if base in ('Eq', 'Ne', 'Lt', 'Le', 'Gt', 'Ge'):
             return BoolV(cmp_term(base, x, y))
+        if base in ('Add', 'Sub') and not is_float:
+            # max(a, b) - min(a, b) = |a - b| and max(a, b) + min(a, b) = a + b (integers: no NaN to treat specially)
+            ax, ay = x.as_single_atom(), y.as_single_atom()
+            if ax is not None and ay is not None and {ax[0], ay[0]} == {'max', 'min'} and {ax[1], ax[2]} == {ay[1], ay[2]} \
+                    and x == Poly.atom(ax) and y == Poly.atom(ay):
+                if base == 'Add':
+                    x, y = as_poly(ax[1]), as_poly(ax[2])
+                elif ax[0] == 'max':
+                    x, y = t_abs(as_poly(ax[1]) - as_poly(ax[2]), ctx), ZERO
         if base == 'Add':
             r = x + y
         elif base == 'Sub':
@@ -1272,8 +1417,25 @@ class Interp:
             self.stats['blocks'] += 1
             st.trace.append((fr.fn['path'], fr.bb))
             self.fns_analysed.add(fr.fn['path'])
-            for s in blk['stmts']:
-                self.exec_stmt(st, fr, s)
+            stmts = blk['stmts']
+            start, fr.resume = fr.resume, 0
+            for si in range(start, len(stmts)):
+                self._split_ok = True
+                try:
+                    self.exec_stmt(st, fr, stmts[si])
+                except SplitRequest as e:
+                    self._split_ok = False
+                    outs = []
+                    for c in e.conds:
+                        s2 = st.fork()
+                        if s2.ctx.assume(c) is False:
+                            continue
+                        s2.frames[-1].resume = si
+                        outs.append(s2)
+                    self.stats['case_splits'] = self.stats.get('case_splits', 0) + 1
+                    return outs
+                finally:
+                    self._split_ok = False
             t = blk['term']
             k = t['k']
             if k == 'goto':
@@ -2331,6 +2493,7 @@ class Interp:
     def _run_sync(self, st, sub):
         saved = st.frames
         st.frames = saved + [sub]
+        self._nosplit = getattr(self, '_nosplit', 0) + 1
         try:
             steps = 0
             while True:
@@ -2376,6 +2539,7 @@ class Interp:
                     raise InterpError('terminator %s in closure' % k)
         finally:
             st.frames = saved
+            self._nosplit -= 1
 
 
 def round_float(c, n):
